@@ -4,7 +4,7 @@ import ast
 import z3
 
 from pyvc.contract import Contract
-from pyvc.engine import LoopSpec, Obj, Sym, Builtin, BoundMethod, PyRaise, fresh, named, BOOL, INT, STR
+from pyvc.engine import LoopSpec, Obj, Sym, Builtin, BoundMethod, PyRaise, fresh, named, BOOL, INT, STR, zterm
 from pyvc import blocks, stubs
 
 PROP = 'C06'
@@ -878,3 +878,40 @@ set_meta = Contract(
     assumptions=['pysam set_tag/get_tag/has_tag as a tag table (A4); Molecule.__iter__ / Fragment.__iter__ interpreted'],
 )
 UNITS.append(set_meta)
+
+
+# ------------------------------------------------------------------------------ Fragment.set_sample / update_umi: cell and UMI of a fragment
+# "fragments of one molecule always share cell ... and are linked by UMIs": the cell is the SM tag and the UMI the RX tag of the
+# fragment's own records (both mates of a pair carry the same tags - demultiplexer contract C04)
+def tag_fragment(eng, name):
+    r1 = stubs.make_read(eng, 'R1', tags={'SM': STR, 'RX': STR}, closed=True)
+    r2 = stubs.make_read(eng, 'R2', tags={'SM': STR, 'RX': STR}, closed=True)
+    paired = fresh(BOOL, 'paired')
+    reads = [r1, r2] if eng.branch(paired.z) else [r1, None]
+    # both mates of a pair were tagged by the same demultiplexing record
+    if reads[1] is not None:
+        for t in ('SM', 'RX'):
+            p1, v1 = r1.attrs['_vc_tags'][t]
+            p2, v2 = r2.attrs['_vc_tags'][t]
+            eng.assume(z3.And(zterm(p1, BOOL) == zterm(p2, BOOL), v1.z == v2.z))
+    eng.spec_env['READ1'] = r1
+    return Obj('Fragment', {'reads': reads, 'sample': None, 'umi': None}, info=eng.loader.classref(FF, 'Fragment'))
+
+
+set_sample = Contract(
+    PROP, FF + '::Fragment.set_sample', name='Fragment.set_sample[from the records]',
+    params={'self': tag_fragment, 'sample': 'none', 'library_name': 'none'},
+    ensures={'cell_is_the_SM_tag_of_the_records': 'implies(READ1.has_tag("SM"), self.sample == READ1.get_tag("SM"))',
+             'no_tag_no_cell': 'implies(not READ1.has_tag("SM"), self.sample is None)'},
+    raises={},
+    assumptions=['mates of a pair carry the same SM / RX tags (C04); pysam tag table (A4)'],
+)
+frag_update_umi = Contract(
+    PROP, FF + '::Fragment.update_umi', name='Fragment.update_umi[from the records]',
+    params={'self': tag_fragment},
+    ensures={'umi_is_the_RX_tag_of_the_records': 'implies(READ1.has_tag("RX"), self.umi == READ1.get_tag("RX"))',
+             'no_tag_no_umi': 'implies(not READ1.has_tag("RX"), self.umi is None)'},
+    raises={},
+    assumptions=['mates of a pair carry the same SM / RX tags (C04); pysam tag table (A4)'],
+)
+UNITS += [set_sample, frag_update_umi]
